@@ -596,7 +596,20 @@ async fn wait_for_pipeline_processes_and_update_status(
 
         match wait_result {
             ExecutionWaitResult::Completed(current_result) => {
-                result = current_result;
+                // A stage that ran in its own subshell only hands back its exit code; an
+                // `exit`, `return`, `break` or `continue` executed there ended that subshell
+                // and must not act on this shell.
+                let ran_in_current_shell = pipeline.seq.len() == 1
+                    || (process_spawn_results.is_empty()
+                        && shell.options().run_last_pipeline_cmd_in_current_shell
+                        && !shell.options().enable_job_control);
+
+                result = if ran_in_current_shell {
+                    current_result
+                } else {
+                    ExecutionResult::from(current_result.exit_code)
+                };
+
                 shell.set_last_exit_status(result.exit_code.into());
                 shell
                     .last_pipeline_statuses_mut()
